@@ -111,9 +111,9 @@ impl Executor for StatefulExecutor {
                 }),
             ]
             .into_iter()
-            .filter(|item| item.is_some())
-            .min()
-            .unwrap_or_default()
+            .flatten()
+            // the shorter one wins, whichever kind it is
+            .min_by_key(|item| item.timeout)
             .map_or((false, None), |t| (t.is_global, Some(t.timeout)));
             let span = trace_span!("execution", expression = &testcase.shell_expression, timeout = ?&timeout);
             let _enter = span.enter();
